@@ -335,6 +335,15 @@ def call_fn_value(ex, st, f, argv):
     b = ex.bodies.get(f.name) if f.name else None
     if b is None and f.name:
         b = ex.resolve(f.name)
+    if b is None and f.name:
+        # a tuple-variant constructor used as a function (`.map(Value::Boolean)`, `map_or_else(.., Value::Boolean)`)
+        segs = [re.sub(r"<.*>$", "", x) for x in re.sub(r"^fn\(.*\) -> .* \{(.*)\}$", r"\1", f.name).split("::")]
+        if len(segs) >= 2 and segs[-2] in ex.enums and segs[-1] in ex.enums[segs[-2]]:
+            yield Outcome("return", st, value=En(segs[-2], z3.IntVal(ex.enums[segs[-2]][segs[-1]]), {segs[-1]: tuple(argv)}))
+            return
+        if len(segs) >= 1 and segs[-1] in ("Some", "Ok", "Err") and len(argv) == 1:
+            yield Outcome("return", st, value={"Some": some, "Ok": ok, "Err": err}[segs[-1]](argv[0]))
+            return
     if b is None:
         yield from ex.call(st, f.name or "?", argv, None)
         return
@@ -391,6 +400,17 @@ def m_map_err(ex, st, callee, args, dest_ty):
                     yield o.st, En(v.ty, z3.IntVal(1), {"Err": (o.value,)})
                 else:
                     yield o
+
+
+def m_map_or_else(ex, st, callee, args, dest_ty):
+    """Option::map_or_else(default_fn, f) / Result::map_or_else(default_fn(err), f)"""
+    v, dflt, f = args
+    good, goodidx = ("Some", 1) if ("Some" in v.alts or "None" in v.alts) else ("Ok", 0)
+    for st2 in ex.branch(st, v.disc != goodidx):
+        yield from call_fn_value(ex, st2, dflt, [] if good == "Some" else [v.alts["Err"][0]])
+    if good in v.alts:
+        for st2 in ex.branch(st, v.disc == goodidx):
+            yield from call_fn_value(ex, st2, f, [v.alts[good][0]])
 
 
 def m_and_then(ex, st, callee, args, dest_ty):
@@ -1131,6 +1151,7 @@ BASE_MODELS = [
     (R(r"^(Option|Result)::<.*>::map::<.*>$"), m_opt_map),
     (R(r"^(Option|Result)::<.*>::map_or::<.*>$"), m_map_or),
     (R(r"^Result::<.*>::map_err::<.*>$"), m_map_err),
+    (R(r"^(Option|Result)::<.*>::map_or_else::<.*>$"), m_map_or_else),
     (R(r"^(Option|Result)::<.*>::or_else::<.*>$"), m_or_else),
     (R(r"^(Option|Result)::<.*>::and_then::<.*>$"), m_and_then),
     (R(r"^Option::<.*>::filter::<.*>$"), m_opt_filter),
